@@ -17,10 +17,10 @@ PROPERTY = "C08"
 # CODE VARIANT FLAGS — the value that matches TODAY's code in /repo (see Model/Frames.lean `Variant`).
 # 1 = Align / Padding(expand=False) / Panel(expand=False) render a child whose measured maximum is 0 at width 0
 #     (nothing is drawn: pre-finding F25); 0 = the repair in pending_fixes/C08-zero-width-child.diff is applied.
-ZERO_WIDTH_CHILD = 1
+ZERO_WIDTH_CHILD = 0
 # 1 = Rule(align="right") repeats `characters` (width - title - 1) TIMES, so multi-cell `characters` push the title out;
 #     0 = the repair in pending_fixes/C08-rule-right-multicell.diff is applied.
-RULE_RIGHT_REPEAT = 1
+RULE_RIGHT_REPEAT = 0
 VARIANT = ZERO_WIDTH_CHILD + 2 * RULE_RIGHT_REPEAT
 
 GUIDE_CHARS = set(" |+-`│├─└┃┣━┗║╠═╚")
